@@ -227,13 +227,12 @@ def apply_observe(sess, op):
         table = O.Table(r[1])
         if sess.gen is not None and table.phases:
             sess.gen.last_table = table.comp[table.phases[0]]
-        out = []
+        out = checks._Out()
         tol = checks.Tol(vt, it)
         checks.check_table(m, table, ta, tol, E, out, sess.stats, phase_arg=kw.get("phase", ""))
         sess.stats["tables_checked"] += 1
         if out:
-            p, c, d = out[0]
-            sess.fail(p, c, d)
+            sess.fail(*out[0])
         _count_nontrivial(sess, table)
         if "C03" in E:
             from .c03 import check_sweeps
@@ -246,16 +245,31 @@ def apply_observe(sess, op):
             if r1[0] != "ok":
                 sess.fail("C06", "single-phase-solve", "solve(phase=%r) raised %r while all-phase solve succeeded" % (ph, r1[1:]))
             t1 = O.Table(r1[1])
-            for n, row in t1.comp.get(ph, {}).items():
-                if row != table.comp[ph].get(n):
-                    sess.fail("C06", "single-phase-equals-slice", "solve(phase=%r) row %s: %s vs %s" % (ph, n, _short(row), _short(table.comp[ph].get(n))))
+
+            def same_row(a, b):
+                """b (row of the all-phase table) may carry extra columns that
+                another phase made appear; they must be blank here."""
+                if a is None or b is None:
+                    return "missing row"
+                dk = [(c, a.get(c), b.get(c)) for c in a if a.get(c) != b.get(c)]
+                dk += [(c, None, b[c]) for c in b if c not in a and b[c] != ""]
+                return dk or None
+
             if set(t1.comp.get(ph, {})) != set(table.comp[ph]):
                 sess.fail("C06", "single-phase-equals-slice", "solve(phase=%r) rows differ" % ph)
-            for key in ("total",):
-                if t1.total.get(ph) != table.total.get(ph):
-                    sess.fail("C06", "single-phase-equals-slice", "solve(phase=%r) total row %s vs %s" % (ph, _short(t1.total.get(ph)), _short(table.total.get(ph))))
-            if t1.subsys.get(ph) != table.subsys.get(ph):
+            for n, row in t1.comp.get(ph, {}).items():
+                dk = same_row(row, table.comp[ph].get(n))
+                if dk:
+                    sess.fail("C06", "single-phase-equals-slice", "solve(phase=%r) row %s differs in %s" % (ph, n, _short(dk)))
+            dk = same_row(t1.total.get(ph), table.total.get(ph))
+            if dk:
+                sess.fail("C06", "single-phase-equals-slice", "solve(phase=%r) total row differs in %s" % (ph, _short(dk)))
+            if set(t1.subsys.get(ph, {})) != set(table.subsys.get(ph, {})):
                 sess.fail("C06", "single-phase-equals-slice", "solve(phase=%r) subsystem rows differ" % ph)
+            for s_, row in t1.subsys.get(ph, {}).items():
+                dk = same_row(row, table.subsys[ph].get(s_))
+                if dk:
+                    sess.fail("C06", "single-phase-equals-slice", "solve(phase=%r) subsystem %s differs in %s" % (ph, s_, _short(dk)))
         r2 = sess._guard(lambda: sut.solve(phase="no such phase"))
         if not (r2[0] == "exc" and r2[1] == "ValueError"):
             sess.fail("C06", "unknown-phase-rejected", "solve(phase='no such phase') -> %s" % _short(r2))
